@@ -22,11 +22,11 @@ import (
 
 type caseJSON struct {
 	conslog.E2ECaseJSON
-	Panics  []bool          `json:"panics"`
-	Expired []int64         `json:"feeder_gave_up_at"`
-	Steered bool            `json:"steered_by_hook"`
+	Panics  []bool           `json:"panics"`
+	Expired []int64          `json:"feeder_gave_up_at"`
+	Steered bool             `json:"steered_by_hook"`
 	Calls   map[string][]int `json:"calls_per_offset"`
-	Marks   []string        `json:"marks"`
+	Marks   []string         `json:"marks"`
 }
 
 type work struct {
